@@ -79,3 +79,27 @@ def array(a, form):
     if form == "series-odd-index":
         return pd.Series(a, index=np.arange(len(a))[::-1] * 3 + 11)
     raise ValueError(form)
+
+
+PMAX_FORMS = ["float", "float", "int", "np.int64", "np.float64", "keyword", "keyword-int"]
+
+
+def pmax_form():
+    """How build_pvt_gas's maximum pressure is handed over (a whole number also as Python / numpy int, by keyword)."""
+    return st.sampled_from(PMAX_FORMS)
+
+
+def call_with_pmax(fn, gas_values, dryness, pmax, form):
+    """fn(gas_values, dryness, <pmax in the requested form>); integer forms only when pmax is a whole number."""
+    whole = float(pmax).is_integer()
+    if form in ("int", "keyword-int") and whole:
+        v = int(pmax)
+    elif form == "np.int64" and whole:
+        v = np.int64(int(pmax))
+    elif form == "np.float64":
+        v = np.float64(pmax)
+    else:
+        v = float(pmax)
+    if form.startswith("keyword"):
+        return fn(gas_values, dryness, maximum_pressure=v)
+    return fn(gas_values, dryness, v)
